@@ -125,7 +125,42 @@ def isd_search(Hsec_rows, n, span, d, rng, iters):
     return best
 
 
+def deformed_d_case(case):
+    """A single-qubit relabelling changes no weight: every deformation of a
+    code must report the distance of the undeformed code (which the
+    exhaustive cases decide)."""
+    fails = []
+    cls, size = case['cls'], tuple(case['size'])
+    und = domain.build_code(cls, size)
+    d0 = int(und.d)
+    n = 0
+    for name, kw in domain.deformations(cls):
+        if name is None:
+            continue
+        dfm = domain.build_code(cls, size, name, kw)
+        n += 1
+        if int(dfm.d) != d0:
+            fails.append({'relation': 'deformation_preserves_reported_d',
+                          'detail': f'{cls}{size}: d={int(dfm.d)} after deform({name}, {kw}), '
+                                    f'{d0} before (a relabelling of single qubits cannot change '
+                                    f'the distance)', 'sig': {'class': cls}})
+            break
+        # own weight of every listed logical: number of qubits in the support
+        L = np.vstack([gf2.to_dense(dfm.logicals_x), gf2.to_dense(dfm.logicals_z)])
+        nn = dfm.n
+        w = int(((L[:, :nn] + L[:, nn:]) > 0).sum(axis=1).min())
+        if w != int(dfm.d):
+            fails.append({'relation': 'd_is_min_listed_weight',
+                          'detail': f'{cls}{size} {name} {kw}: d={int(dfm.d)}, lightest listed '
+                                    f'logical acts on {w} qubits', 'sig': {'class': cls}})
+            break
+    return {'fails': fails, 'nontrivial': len(set(size)) > 1 and n > 0,
+            'labels': ['deformed-d', cls], 'evals': max(1, n)}
+
+
 def eval_case(case):
+    if case.get('kind') == 'deformed_d':
+        return deformed_d_case(case)
     fails = []
 
     def fail(rel, detail):
@@ -229,6 +264,10 @@ def cases_for(max_n, budget, isd_iters, seed, max_L, max_L_2d, max_color):
             continue
         out.append(dict(c, budget=budget, isd_iters=isd_iters,
                         rseed=seed * 31 + i))
+    # every deformation x axis of every instance reports the same d
+    for c in list(out):
+        if domain.get_class(c['cls']).deformation_names:
+            out.append({'kind': 'deformed_d', 'cls': c['cls'], 'size': c['size']})
     # deformed spot checks (non-CSS path, tiny n)
     for cls, size, name in (('RotatedPlanar2DCode', (3, 3), 'XZZX'),
                             ('Planar2DCode', (2, 3), 'XY'),
@@ -247,6 +286,7 @@ def run(ctx):
     ctx.note('excluded_from_domain',
              'Color666ToricCode with L_x != L_y (logicals cannot be built: C01 known finding)')
     ctx.run_cases(cases, chunk=1)
+    ctx.aux = [a for a in ctx.aux if 'decided' in a]
     ctx.note('decided_exhaustively', sorted(
         f"{a['id']} d={a['d']} n={a['n']}" for a in ctx.aux if a['decided']))
     ctx.note('searched_only', sorted(
